@@ -61,6 +61,8 @@ type History struct {
 	Comment string `json:"comment,omitempty"`
 	// a scenario around the real staking handler instead of ops (te.go)
 	Scenario *Scenario `json:"scenario,omitempty"`
+	// a history of real staking handlers instead of ops (handlers.go)
+	Handlers *HHist `json:"handlers,omitempty"`
 	// filled by run
 	Hashes  []uint64 `json:"-"`
 	Panic   bool     `json:"-"`
@@ -1303,7 +1305,7 @@ func loadCorpus(dir string) []*History {
 			continue
 		}
 		var h History
-		if json.Unmarshal(b, &h) == nil && len(h.Ops) > 0 {
+		if json.Unmarshal(b, &h) == nil && (len(h.Ops) > 0 || h.Handlers != nil) {
 			h.Comment = "corpus:" + filepath.Base(f)
 			out = append(out, &h)
 		}
@@ -1396,7 +1398,12 @@ func gen(seed uint64, n int, outDir, corpusDir string, flavour int) {
 			}
 		}
 	}
+	var corpusHandlers []*HHist
 	for _, h := range loadCorpus(corpusDir) {
+		if h.Handlers != nil {
+			corpusHandlers = append(corpusHandlers, h.Handlers)
+			continue
+		}
 		handle(h, "corpus")
 	}
 	for len(cases) < n {
@@ -1426,6 +1433,40 @@ func gen(seed uint64, n int, outDir, corpusDir string, flavour int) {
 			res.Count("oracle:VIOLATION")
 		}
 	}
+	// histories of the real staking handlers on non-whole amounts (oracle only)
+	for i := 0; i < len(corpusHandlers)+10+n/6; i++ {
+		var hh *HHist
+		if i < len(corpusHandlers) {
+			hh = corpusHandlers[i]
+			res.Count("handler-history:corpus")
+		} else {
+			hh = genHandlers(r)
+		}
+		res.Count("handler-history")
+		for _, o := range hh.Ops {
+			res.Count("handler:" + o.K)
+		}
+		f, kn, done := runHandlers(hh)
+		if f != "" {
+			cut := done + 1
+			if cut > len(hh.Ops) {
+				cut = len(hh.Ops)
+			}
+			res.OracleHits = append(res.OracleHits, History{What: "staking handlers: " + f, Handlers: &HHist{Ops: hh.Ops[:cut]}})
+			res.Count("oracle:VIOLATION")
+		} else {
+			for _, cl := range []string{F11, F10} {
+				if kn[cl] == "" {
+					continue
+				}
+				known[cl]++
+				if known[cl] <= 3 {
+					res.OracleHits = append(res.OracleHits, History{What: cl, Handlers: hh, Comment: kn[cl]})
+				}
+				res.Count("oracle:known-finding:" + cl)
+			}
+		}
+	}
 	var sb strings.Builder
 	sb.WriteString("From VF.C08 Require Import Model.\nLocal Open Scope Z_scope.\nDefinition cases : list case := [\n")
 	for i, c := range cases {
@@ -1443,7 +1484,7 @@ func gen(seed uint64, n int, outDir, corpusDir string, flavour int) {
 	vf.WriteFile(filepath.Join(outDir, "Cases.v"), sb.String())
 	res.Cases = len(cases)
 	res.Distinct = len(distinct)
-	res.Rule = "random histories of public StateDB calls (fund, CreateValidator, PartialCopy+UpdateValidator as deposit/withdraw/status/role/rewards/in-place/raw write, RemoveValidator, UpdateDelegation +/-, Snapshot, RevertToSnapshot, Finalise, IntermediateRoot, Commit+state.New, Copy, GetValidatorsForUpdate) over 6 validator keys and 6 delegator accounts, amounts at stake-unit boundaries; 30% of the histories fork (Copy with BOTH handles kept alive over the shared database: build-up of one or two focus delegators' lists to a length with a spare slot, ops interleaved on both handles that mostly add/withdraw delegations of the focus delegators with new validators sorting last, Commit+reload of both; after every op the property oracle runs on both handles and the idle handle's observation must not change; each handle is one case: its own projected history); 35% of the update ops use the in-place convention (the stored record is written, then UpdateValidator(stored, copy)) with any kind of change, and a withdrawal of a delegation from an online validator is followed half of the time by the in-place status change of staking.teDelegationSub; besides the histories, 10+n/10 scenarios per run drive the REAL staking.teDelegationSub (oracle only: total stake at MinStakes, withdrawal below it, then Copy/IntermediateRoot/Commit+reload); 55% of the histories stay inside the disciplined finding-free class, 45% are adversarial (finding classes, broken caller discipline, invalid roles/ids); a case is one history with the hash of the complete projected state (statistics, index, cached objects with slice length/capacity, trie records, delegator accounts, journal/revision counters) after every op; non-trivial = contains a create/update/delegate; distinct by full history"
+	res.Rule = "random histories of public StateDB calls (fund, CreateValidator, PartialCopy+UpdateValidator as deposit/withdraw/status/role/rewards/in-place/raw write, RemoveValidator, UpdateDelegation +/-, Snapshot, RevertToSnapshot, Finalise, IntermediateRoot, Commit+state.New, Copy, GetValidatorsForUpdate) over 6 validator keys and 6 delegator accounts, amounts at stake-unit boundaries; 30% of the histories fork (Copy with BOTH handles kept alive over the shared database: build-up of one or two focus delegators' lists to a length with a spare slot, ops interleaved on both handles that mostly add/withdraw delegations of the focus delegators with new validators sorting last, Commit+reload of both; after every op the property oracle runs on both handles and the idle handle's observation must not change; each handle is one case: its own projected history); 35% of the update ops use the in-place convention (the stored record is written, then UpdateValidator(stored, copy)) with any kind of change, and a withdrawal of a delegation from an online validator is followed half of the time by the in-place status change of staking.teDelegationSub; besides the histories, 10+n/6 handler histories per run drive the REAL end-of-block code of package staking unmodified (teCreate, teUpdate, teDeposit, teWithdraw, teChangeStatus, teDelegationAdd, teDelegationSub, doPenalize/takePenalty, slashingAndRecoveringYouV5, rewardsToPool, distributeRewards, settleValidatorRewards) on validators with delegations and non-whole amounts (fractions 0, 1 LU, 1 YOU - 1 LU, halves, hundredths, random), interleaved with IntermediateRoot, Commit+reload, Copy, Snapshot/Revert, the oracle after every step and after a final Commit+reload (oracle only); 10+n/10 scenarios per run drive the REAL staking.teDelegationSub (oracle only: total stake at MinStakes, withdrawal below it, then Copy/IntermediateRoot/Commit+reload); 55% of the histories stay inside the disciplined finding-free class, 45% are adversarial (finding classes, broken caller discipline, invalid roles/ids); a case is one history with the hash of the complete projected state (statistics, index, cached objects with slice length/capacity, trie records, delegator accounts, journal/revision counters) after every op; non-trivial = contains a create/update/delegate; distinct by full history"
 	for i, c := range cases {
 		res.CaseDescs = append(res.CaseDescs, History{Ops: c.Ops, Comment: c.Comment})
 		if i < 3 {
@@ -1473,6 +1514,21 @@ func replay(file string, verbose bool) {
 	if err := json.Unmarshal(b, &h); err != nil {
 		fmt.Println(err)
 		os.Exit(2)
+	}
+	if h.Handlers != nil {
+		f, kn, _ := runHandlers(h.Handlers)
+		if f != "" {
+			fmt.Println("ORACLE VIOLATION:", f)
+			os.Exit(1)
+		}
+		for cl, x := range kn {
+			fmt.Println("ORACLE VIOLATION:", x, "[inside known finding class "+cl+"]")
+		}
+		if len(kn) > 0 {
+			os.Exit(1)
+		}
+		fmt.Println("property holds on this handler history")
+		return
 	}
 	if h.Scenario != nil {
 		if f, _ := runScenario(h.Scenario); f != "" {
